@@ -92,10 +92,34 @@ type reporter struct {
 	snaps []snapshot
 }
 
+// The receiver owns what it is handed (the hub rewrites the address list of a paired service in
+// place): it keeps its own copy for the record and then scribbles over the entries it got - which
+// must not reach what the manager knows.
 func (r *reporter) ReportMdnsEntries(entries map[string]*api.MdnsEntry, newEntries bool) {
 	r.mu.Lock()
 	defer r.mu.Unlock()
-	r.snaps = append(r.snaps, snapshot{entries, newEntries})
+	keep := make(map[string]*api.MdnsEntry, len(entries))
+	for k, e := range entries {
+		if e == nil {
+			keep[k] = nil
+			continue
+		}
+		c := *e
+		c.Addresses = append([]net.IP(nil), e.Addresses...)
+		c.Categories = append([]api.DeviceCategoryType(nil), e.Categories...)
+		keep[k] = &c
+	}
+	r.snaps = append(r.snaps, snapshot{keep, newEntries})
+	for k, e := range entries {
+		if e != nil {
+			e.Addresses = []net.IP{net.IPv4(203, 0, 113, 9)}
+			e.Name, e.Port, e.Identifier = "scribbled", -7, "scribbled"
+			if len(e.Categories) > 0 {
+				e.Categories[0] = 99
+			}
+		}
+		delete(entries, k)
+	}
 }
 func (r *reporter) count() int {
 	r.mu.Lock()
